@@ -142,6 +142,26 @@ theorem mem_foldl_storeRoute {self frm clock : Nat} {a : Adv} {e : Entry} (rs : 
       · exact Or.inr ⟨hp, r, List.mem_cons_self, he⟩
     · exact Or.inr ⟨hp, r', List.mem_cons_of_mem _ hr', he⟩
 
+/-! ### what forwarding changes -/
+
+@[simp] theorem fwdAdv_seenBy (self : Node) (a : Adv) : (fwdAdv self a).seenBy = a.seenBy ++ [self] := by
+  unfold fwdAdv; split <;> rfl
+@[simp] theorem fwdAdv_origin (self : Node) (a : Adv) : (fwdAdv self a).origin = a.origin := by
+  unfold fwdAdv; split <;> rfl
+@[simp] theorem fwdAdv_seq (self : Node) (a : Adv) : (fwdAdv self a).seq = a.seq := by
+  unfold fwdAdv; split <;> rfl
+@[simp] theorem fwdAdv_wd (self : Node) (a : Adv) : (fwdAdv self a).wd = a.wd := by
+  unfold fwdAdv; split <;> simp_all
+theorem fwdAdv_path {self : Node} {a : Adv} (h : a.wd = false) : (fwdAdv self a).path = self :: a.path := by
+  unfold fwdAdv; simp [h]
+theorem fwdAdv_routes {self : Node} {a : Adv} (h : a.wd = false) :
+    (fwdAdv self a).routes = a.routes.map (fun r => { r with metric := inc16 r.metric }) := by
+  unfold fwdAdv; simp [h]
+theorem fwdAdv_path_wd {self : Node} {a : Adv} (h : a.wd = true) : (fwdAdv self a).path = a.path := by
+  unfold fwdAdv; simp [h]
+theorem fwdAdv_routes_wd {self : Node} {a : Adv} (h : a.wd = true) : (fwdAdv self a).routes = a.routes := by
+  unfold fwdAdv; simp [h]
+
 /-- The conditions under which `handle` gets past the seen cache, the seen-by test and the hop
     limit, i.e. actually processes the advertisement. -/
 def Accepts (mh self : Nat) (a : Adv) (st : NodeSt) : Prop :=
@@ -150,7 +170,7 @@ def Accepts (mh self : Nat) (a : Adv) (st : NodeSt) : Prop :=
 theorem handle_entries {mh : Nat} {peers : List Node} {self frm clock : Nat} {a : Adv} {st : NodeSt}
     {e : Entry} (h : e ∈ (handle mh peers self frm clock a st).1.entries) :
     e ∈ st.entries ∨
-    (Accepts mh self a st ∧ self ∉ a.path ∧ ∃ r, r ∈ a.routes ∧ e = mkEntry r a frm clock) := by
+    (a.wd = false ∧ Accepts mh self a st ∧ self ∉ a.path ∧ ∃ r, r ∈ a.routes ∧ e = mkEntry r a frm clock) := by
   unfold handle at h
   split at h
   · exact Or.inl h
@@ -160,19 +180,36 @@ theorem handle_entries {mh : Nat} {peers : List Node} {self frm clock : Nat} {a 
     · exact Or.inl h
     · rename_i hsb
       split at h
-      · exact Or.inl h
-      · rename_i hmh
-        have key : e ∈ (a.routes.foldl (storeRoute self frm a clock)
-            { st with seen := (a.origin, a.seq) :: st.seen }).entries := by
-          split at h <;> exact h
-        rcases mem_foldl_storeRoute _ _ key with h | ⟨hp, r, hr, he⟩
+      · -- a withdrawal only removes routes
+        simp only [NodeSt.entries] at h ⊢
+        rcases List.mem_append.1 h with h | h
+        · exact Or.inl (List.mem_append_left _ (List.mem_filter.1 h).1)
+        · exact Or.inl (List.mem_append_right _ h)
+      · rename_i hwd
+        split at h
         · exact Or.inl h
-        · exact Or.inr ⟨⟨hseen, hsb, hmh⟩, hp, r, hr, he⟩
+        · rename_i hmh
+          have key : e ∈ (a.routes.foldl (storeRoute self frm a clock)
+              { st with seen := (a.origin, a.seq) :: st.seen }).entries := by
+            split at h <;> exact h
+          rcases mem_foldl_storeRoute _ _ key with h | ⟨hp, r, hr, he⟩
+          · exact Or.inl h
+          · exact Or.inr ⟨by simpa using hwd, ⟨hseen, hsb, hmh⟩, hp, r, hr, he⟩
+
+theorem mem_fwdTargets {peers : List Node} {frm self : Node} {a : Adv} {p : Node}
+    (h : p ∈ fwdTargets peers frm (fwdAdv self a).seenBy) :
+    p ∈ peers ∧ p ≠ frm ∧ p ∉ a.seenBy ∧ p ≠ self := by
+  unfold fwdTargets at h
+  rcases List.mem_filter.1 h with ⟨h1, h2⟩
+  simp only [fwdAdv_seenBy, Bool.and_eq_true, bne_iff_ne, ne_eq, Bool.not_eq_true', List.contains_eq_mem,
+    List.mem_append, List.mem_singleton, decide_eq_false_iff_not, not_or] at h2
+  exact ⟨h1, h2.1, h2.2.1, h2.2.2⟩
 
 theorem handle_out {mh : Nat} {peers : List Node} {self frm clock : Nat} {a : Adv} {st : NodeSt}
     {p : Node} {m : Adv} (h : (p, m) ∈ (handle mh peers self frm clock a st).2.1) :
     m = fwdAdv self a ∧ p ∈ peers ∧ p ≠ frm ∧ p ∉ a.seenBy ∧ p ≠ self ∧
-    Accepts mh self a st ∧ ¬ (mh > 0 ∧ hopsOf a ≥ mh) := by
+    (a.origin, a.seq) ∉ st.seen ∧ self ∉ a.seenBy ∧
+    (a.wd = false → ¬ (mh > 0 ∧ hopsOf a > mh) ∧ ¬ (mh > 0 ∧ hopsOf a ≥ mh)) := by
   unfold handle at h
   split at h
   · cases h
@@ -182,18 +219,21 @@ theorem handle_out {mh : Nat} {peers : List Node} {self frm clock : Nat} {a : Ad
     · cases h
     · rename_i hsb
       split at h
-      · cases h
-      · rename_i hmh
-        split at h
+      · rename_i hwd
+        rcases List.mem_map.1 h with ⟨q, hq, heq⟩
+        cases heq
+        obtain ⟨h1, h2, h3, h4⟩ := mem_fwdTargets hq
+        exact ⟨rfl, h1, h2, h3, h4, hseen, hsb, fun h0 => by rw [h0] at hwd; cases hwd⟩
+      · split at h
         · cases h
-        · rename_i hge
-          rcases List.mem_map.1 h with ⟨q, hq, heq⟩
-          cases heq
-          unfold fwdTargets at hq
-          rcases List.mem_filter.1 hq with ⟨hq1, hq2⟩
-          simp only [fwdAdv, Bool.and_eq_true, bne_iff_ne, ne_eq, Bool.not_eq_true', List.contains_eq_mem,
-            List.mem_append, List.mem_singleton, decide_eq_false_iff_not, not_or] at hq2
-          exact ⟨rfl, hq1, hq2.1, hq2.2.1, hq2.2.2, ⟨hseen, hsb, hmh⟩, hge⟩
+        · rename_i hmh
+          split at h
+          · cases h
+          · rename_i hge
+            rcases List.mem_map.1 h with ⟨q, hq, heq⟩
+            cases heq
+            obtain ⟨h1, h2, h3, h4⟩ := mem_fwdTargets hq
+            exact ⟨rfl, h1, h2, h3, h4, hseen, hsb, fun _ => ⟨hmh, hge⟩⟩
 
 theorem handle_seq (mh : Nat) (peers : List Node) (self frm clock : Nat) (a : Adv) (st : NodeSt) :
     (handle mh peers self frm clock a st).1.seq = st.seq ∧
@@ -206,8 +246,10 @@ theorem handle_seq (mh : Nat) (peers : List Node) (self frm clock : Nat) (a : Ad
     · exact ⟨rfl, rfl⟩
     · split
       · exact ⟨rfl, rfl⟩
-      · have := foldl_storeRoute_seq self frm clock a a.routes { st with seen := (a.origin, a.seq) :: st.seen }
-        split <;> exact ⟨this.1, this.2.2⟩
+      · split
+        · exact ⟨rfl, rfl⟩
+        · have := foldl_storeRoute_seq self frm clock a a.routes { st with seen := (a.origin, a.seq) :: st.seen }
+          split <;> exact ⟨this.1, this.2.2⟩
 
 theorem handle_seen {mh : Nat} {peers : List Node} {self frm clock : Nat} {a : Adv} {st : NodeSt}
     {k : Node × Nat} (h : k ∈ (handle mh peers self frm clock a st).1.seen) :
@@ -228,7 +270,9 @@ theorem handle_seen {mh : Nat} {peers : List Node} {self frm clock : Nat} {a : A
     · exact aux _ rfl h
     · split at h
       · exact aux _ rfl h
-      · split at h <;> exact aux _ hf h
+      · split at h
+        · exact aux _ rfl h
+        · split at h <;> exact aux _ hf h
 
 /-- While the key is cached the advertisement is neither processed nor forwarded. -/
 theorem handle_cached {mh : Nat} {peers : List Node} {self frm clock : Nat} {a : Adv} {st : NodeSt}
@@ -248,7 +292,9 @@ theorem handle_marks (mh : Nat) (peers : List Node) (self frm clock : Nat) (a : 
     · exact List.mem_cons_self
     · split
       · exact List.mem_cons_self
-      · split <;> (rw [hf]; exact List.mem_cons_self)
+      · split
+        · exact List.mem_cons_self
+        · split <;> (rw [hf]; exact List.mem_cons_self)
 
 theorem handle_seen_mono {mh : Nat} {peers : List Node} {self frm clock : Nat} {a : Adv} {st : NodeSt}
     {k : Node × Nat} (h : k ∈ st.seen) : k ∈ (handle mh peers self frm clock a st).1.seen := by
@@ -261,7 +307,9 @@ theorem handle_seen_mono {mh : Nat} {peers : List Node} {self frm clock : Nat} {
     · exact List.mem_cons_of_mem _ h
     · split
       · exact List.mem_cons_of_mem _ h
-      · split <;> (rw [hf]; exact List.mem_cons_of_mem _ h)
+      · split
+        · exact List.mem_cons_of_mem _ h
+        · split <;> (rw [hf]; exact List.mem_cons_of_mem _ h)
 
 end MM.C11
 
@@ -370,7 +418,7 @@ namespace MM.C11
 /-- A stored route of `x` after one op either was there before, or was built by `x` processing a
     frame that was in flight on a link `a → x`. -/
 def StoredBy (t : Net) (x : Node) (e : Entry) : Prop :=
-  ∃ a m, (⟨a, x, m⟩ : Flight) ∈ t.flight ∧ linked t a x = true ∧ a < t.n ∧ x < t.n ∧
+  ∃ a m, (⟨a, x, m⟩ : Flight) ∈ t.flight ∧ linked t a x = true ∧ a < t.n ∧ x < t.n ∧ m.wd = false ∧
     Accepts t.maxHops x m (t.nodes x) ∧ x ∉ m.path ∧ ∃ r, r ∈ m.routes ∧ e = mkEntry r m a t.clock
 
 theorem entries_process {t : Net} {fl : List Flight} {a b x : Node} {f : Flight} {e : Entry}
@@ -382,9 +430,9 @@ theorem entries_process {t : Net} {fl : List Flight} {a b x : Node} {f : Flight}
   split at h
   · rename_i hx
     subst hx
-    rcases handle_entries h with h | ⟨hacc, hp, r, hr, he⟩
+    rcases handle_entries h with h | ⟨hwd, hacc, hp, r, hr, he⟩
     · exact Or.inl h
-    · refine Or.inr ⟨a, f.adv, ?_, hl, ha, hb, hacc, hp, r, hr, he⟩
+    · refine Or.inr ⟨a, f.adv, ?_, hl, ha, hb, hwd, hacc, hp, r, hr, he⟩
       have : f = ⟨a, x, f.adv⟩ := by cases f; simp_all
       rw [← this]; exact hf
   · exact Or.inl h
@@ -405,6 +453,14 @@ theorem entries_stepCore {t : Net} {op : Op} {x : Node} {e : Entry}
       · exact Or.inl h
     · exact Or.inl h
   | announce a =>
+    simp only [stepCore] at h
+    split at h
+    · simp only [setNode_nodes] at h
+      split at h
+      · rename_i hx; subst hx; exact Or.inl h
+      · exact Or.inl h
+    · exact Or.inl h
+  | withdraw a =>
     simp only [stepCore] at h
     split at h
     · simp only [setNode_nodes] at h
@@ -475,9 +531,13 @@ inductive FlightFrom (t : Net) (op : Op) (f : Flight) : Prop where
   | fwd (a : Node) (m : Adv) (hm : (⟨a, f.src, m⟩ : Flight) ∈ t.flight) (hl : linked t a f.src = true)
       (ha : a < t.n) (hb : f.src < t.n) (hd : f.dst ∈ peersOf t f.src) (hne : f.dst ≠ a)
       (hns : f.dst ∉ m.seenBy) (hself : f.dst ≠ f.src)
-      (hacc : Accepts t.maxHops f.src m (t.nodes f.src))
-      (hlim : ¬ (t.maxHops > 0 ∧ hopsOf m ≥ t.maxHops))
+      (hseen : (m.origin, m.seq) ∉ (t.nodes f.src).seen) (hsb : f.src ∉ m.seenBy)
+      (hlim : m.wd = false → ¬ (t.maxHops > 0 ∧ hopsOf m ≥ t.maxHops))
       (hadv : f.adv = fwdAdv f.src m)
+  /-- `WithdrawLocalRoutes` at `f.src` -/
+  | wdr (hop : op = .withdraw f.src) (ha : f.src < t.n)
+      (hcidr : (t.nodes f.src).locals.any (fun r => r.kind == 0) = true) (hd : f.dst ∈ peersOf t f.src)
+      (hadv : f.adv = withdrawAdv f.src (t.nodes f.src))
   /-- `SendFullTable(f.dst)` at `f.src` -/
   | rep (ord : List Node) (hop : op = .replay f.src f.dst ord) (ha : f.src < t.n) (hb : f.dst < t.n)
       (hl : linked t f.src f.dst = true) (hadv : f.adv ∈ replayAdvs f.src f.dst (t.nodes f.src) ord)
@@ -491,11 +551,11 @@ theorem flight_process {t : Net} {op : Op} {fl : List Flight} {a b : Node} {f0 f
   rcases List.mem_append.1 h with h | h
   · exact .old (hsub _ h)
   · rcases List.mem_map.1 h with ⟨⟨p, m⟩, hpm, rfl⟩
-    obtain ⟨hm, hp, hne, hns, hself, hacc, hlim⟩ := handle_out hpm
+    obtain ⟨hm, hp, hne, hns, hself, hseen, hsb, hlim⟩ := handle_out hpm
     have hf0' : (⟨a, b, f0.adv⟩ : Flight) ∈ t.flight := by
       have : f0 = ⟨a, b, f0.adv⟩ := by cases f0; simp_all
       rw [← this]; exact hf0
-    exact .fwd a f0.adv hf0' hl ha hb hp hne hns hself hacc hlim hm
+    exact .fwd a f0.adv hf0' hl ha hb hp hne hns hself hseen hsb (fun h0 => (hlim h0).2) hm
 
 theorem flight_stepCore {t : Net} {op : Op} {f : Flight} (h : f ∈ (stepCore t op).flight) :
     FlightFrom t op f := by
@@ -520,6 +580,15 @@ theorem flight_stepCore {t : Net} {op : Op} {f : Flight} (h : f ∈ (stepCore t 
       · exact .old h
       · rcases List.mem_map.1 h with ⟨p, hp, rfl⟩
         exact .ann rfl hc hp rfl
+    · exact .old h
+  | withdraw a =>
+    simp only [stepCore] at h
+    split at h
+    · rename_i hc
+      rcases List.mem_append.1 h with h | h
+      · exact .old h
+      · rcases List.mem_map.1 h with ⟨p, hp, rfl⟩
+        exact .wdr rfl hc.1 hc.2 hp rfl
     · exact .old h
   | deliver a b i =>
     simp only [stepCore] at h
@@ -569,6 +638,7 @@ theorem linked_stepCore {t : Net} {op : Op} {a b : Node} (h : linked t a b = tru
     · exact h
   | replay c d ord => simp only [stepCore]; split <;> exact h
   | announce c => simp only [stepCore]; split <;> exact h
+  | withdraw c => simp only [stepCore]; split <;> exact h
   | deliver c d i =>
     simp only [stepCore]
     split
@@ -634,6 +704,13 @@ theorem locals_stepCore (t : Net) (op : Op) (x : Node) :
       · rfl
     · rfl
   | announce a =>
+    simp only [stepCore]
+    split
+    · simp only [setNode_nodes]; split
+      · rename_i hx; subst hx; rfl
+      · rfl
+    · rfl
+  | withdraw a =>
     simp only [stepCore]
     split
     · simp only [setNode_nodes]; split
@@ -874,11 +951,14 @@ theorem handle_out_length (mh : Nat) (peers : List Node) (self frm clock : Nat) 
     split
     · simp
     · split
-      · simp
+      · simp only [List.length_map]
+        exact List.length_filter_le _ _
       · split
         · simp
-        · simp only [List.length_map]
-          exact List.length_filter_le _ _
+        · split
+          · simp
+          · simp only [List.length_map]
+            exact List.length_filter_le _ _
 
 end MM.C11
 
@@ -902,6 +982,7 @@ theorem links_stepCore_eq (t : Net) (op : Op) (h : ∀ a b, op ≠ .connect a b)
   | connect a b => exact absurd rfl (h a b)
   | replay c d ord => simp only [stepCore]; split <;> rfl
   | announce c => simp only [stepCore]; split <;> rfl
+  | withdraw c => simp only [stepCore]; split <;> rfl
   | deliver c d i =>
     simp only [stepCore]; split
     · split <;> rfl
